@@ -10,6 +10,7 @@ From Coq.Strings Require Import Byte.
 From Verif Require Import Lib.Bytes Gen.GenNetworks Gen.GenConsts Model.Wire Model.AddrScript.
 From Verif Require Import Proofs.AddrScriptSpec Proofs.AddrScriptTac Proofs.AddrScriptStr Proofs.AddrScriptObj
      Proofs.AddrScriptParse Proofs.AddrScriptInv Proofs.AddrScriptAll.
+From Verif Require Import Model.SpecNetworks Proofs.SpecNetworksGlue.
 Import ListNotations.
 Open Scope Z_scope.
 
@@ -204,6 +205,18 @@ Example p2sh_segwit_address_object_refuted :
   end.
 Proof. vm_compute. repeat split; reflexivity. Qed.
 
+
+(* --- tie of the address prefix tables: every row of networks.json as regenerated on this run, projected to the fields
+       the properties depend on, equals the frozen specification table (reference-client chain parameters with the
+       library's documented deviations); an edited, added, removed or reordered row breaks this --- *)
+Theorem network_table_is_spec : map proj_network all_networks = spec_networks.
+Proof. exact gen_networks_are_spec. Qed.
+
+Theorem network_table_diff_empty : table_diff (map proj_network all_networks) spec_networks = [].
+Proof. exact gen_table_diff_empty. Qed.
+
+Print Assumptions network_table_is_spec.
+Print Assumptions network_table_diff_empty.
 Print Assumptions classify_lock.
 Print Assumptions lock_classify.
 Print Assumptions property_domain_is_covered.
